@@ -1,6 +1,5 @@
 use std::panic::{RefUnwindSafe, UnwindSafe};
 
-use crate::handle_unwind::handle_unwind;
 use crate::lockable::{
 	Lockable, LockableGetMut, LockableIntoInner, OwnedLockable, RawLock, Sharable,
 };
@@ -309,17 +308,14 @@ impl<L: Lockable + RawLock> Poisonable<L> {
 			// safety: we have the thread key
 			self.raw_write();
 
-			// safety: the data was just locked
-			let r = handle_unwind(
-				|| f(self.data_mut()),
-				|| {
-					self.poisoned.poison();
-					self.raw_unlock_write();
-				},
-			);
+			// safety: the data was just locked. The guard is what unlocks it
+			//         again, on return and on unwind. If `f` unwinds, dropping
+			//         it poisons this lock and every `Poisonable` inside it.
+			let guard = Lockable::guard(self);
+			let r = f(self.data_mut());
 
-			// safety: the collection is still locked
-			self.raw_unlock_write();
+			// safety: we aren't using the data again
+			drop(guard);
 
 			drop(key); // ensure the key stays alive long enough
 
@@ -338,17 +334,14 @@ impl<L: Lockable + RawLock> Poisonable<L> {
 				return Err(key);
 			}
 
-			// safety: we just locked the collection
-			let r = handle_unwind(
-				|| f(self.data_mut()),
-				|| {
-					self.poisoned.poison();
-					self.raw_unlock_write();
-				},
-			);
+			// safety: the data was just locked. The guard is what unlocks it
+			//         again, on return and on unwind. If `f` unwinds, dropping
+			//         it poisons this lock and every `Poisonable` inside it.
+			let guard = Lockable::guard(self);
+			let r = f(self.data_mut());
 
-			// safety: the collection is still locked
-			self.raw_unlock_write();
+			// safety: we aren't using the data again
+			drop(guard);
 
 			drop(key); // ensures the key stays valid long enough
 
@@ -496,17 +489,14 @@ impl<L: Sharable + RawLock> Poisonable<L> {
 			// safety: we have the thread key
 			self.raw_read();
 
-			// safety: the data was just locked
-			let r = handle_unwind(
-				|| f(self.data_ref()),
-				|| {
-					self.poisoned.poison();
-					self.raw_unlock_read();
-				},
-			);
+			// safety: the data was just locked. The guard is what unlocks it
+			//         again, on return and on unwind. If `f` unwinds, dropping
+			//         it poisons this lock and every `Poisonable` inside it.
+			let guard = Sharable::read_guard(self);
+			let r = f(self.data_ref());
 
-			// safety: the collection is still locked
-			self.raw_unlock_read();
+			// safety: we aren't using the data again
+			drop(guard);
 
 			drop(key); // ensure the key stays alive long enough
 
@@ -525,17 +515,14 @@ impl<L: Sharable + RawLock> Poisonable<L> {
 				return Err(key);
 			}
 
-			// safety: we just locked the collection
-			let r = handle_unwind(
-				|| f(self.data_ref()),
-				|| {
-					self.poisoned.poison();
-					self.raw_unlock_read();
-				},
-			);
+			// safety: the data was just locked. The guard is what unlocks it
+			//         again, on return and on unwind. If `f` unwinds, dropping
+			//         it poisons this lock and every `Poisonable` inside it.
+			let guard = Sharable::read_guard(self);
+			let r = f(self.data_ref());
 
-			// safety: the collection is still locked
-			self.raw_unlock_read();
+			// safety: we aren't using the data again
+			drop(guard);
 
 			drop(key); // ensures the key stays valid long enough
 
